@@ -146,9 +146,10 @@ Dispatch(i, t) ==
 Skip(i) == /\ phase = "pass" /\ i \in ready /\ ~Possible(i, now) /\ ready' = ready \ {i}
            /\ UNCHANGED <<now, phase, cur, nops, tf, ret, lastfire, ub>>
 
-CbEnd(t) == /\ phase = "cb" /\ phase' = "pass" /\ cur' = 0 /\ nops' = 0 /\ lastfire' = NoFire /\ At(t)
-         /\ tf' = IF Variant = "oneshot_after" /\ lastfire.stop /\ tf[cur].obj /\ tf[cur].inited THEN [tf EXCEPT ![cur] = Off(@)] ELSE tf
-         /\ UNCHANGED <<ready, ret, ub>>
+CbEnd(t) ==
+  /\ phase = "cb" /\ phase' = "pass" /\ cur' = 0 /\ nops' = 0 /\ lastfire' = NoFire /\ At(t)
+  /\ tf' = IF Variant = "oneshot_after" /\ lastfire.stop /\ tf[cur].obj /\ tf[cur].inited THEN [tf EXCEPT ![cur] = Off(@)] ELSE tf
+  /\ UNCHANGED <<ready, ret, ub>>
 
 PassEnd == /\ phase = "pass" /\ phase' = "idle" /\ ready' = {}
            /\ UNCHANGED <<now, cur, nops, tf, ret, lastfire, ub>>
